@@ -32,12 +32,12 @@ def run_unit(A, unit, rep, tier):
                 b, g = A.graph(cls, "_flush", "root", "none", args=[Val("const", force)])
                 label = f"{func.qualname} on {cls.name} force={force}"
                 rep.context(label, True)
-                decisions = [n for n in live(g) if modified_guard(n) and n.func == func.qualname]
+                decisions = [n for n in live(g) if modified_guard(n) and own(n)]
                 if not decisions:
                     rep.fail("C06.a", norm_key("C06.a", func.qualname, "anchor"), f"{func.qualname}: no write/skip decision on the entry found", [], label)
                 for d in decisions:
-                    own = [x for x in d["cond"].walk() if x.kind == "data" and x.args[0].args[2] == "T"]
-                    if not own:
+                    own_data = [x for x in d["cond"].walk() if x.kind == "data" and x.args[0].args[2] == "T"]
+                    if not own_data:
                         rep.ok("C06.a", f"C06.a {label}: `{d.stmt}` depends only on the shared entry")
                     else:
                         rep.fail("C06.a", norm_key("C06.a", func.qualname, d.stmt),
@@ -109,7 +109,7 @@ def run_unit(A, unit, rep, tier):
     for func, cls in fb.items():
         b, g = A.graph(cls, "_flush_buffer", "root", "none", recv=Val("cls", (cls,)), args=[Val("const", False)])
         rep.context(g.label, True)
-        hs = [n.id for n in live(g) if n.kind == "handler" and "KeyError" in n["types"] and n.func.endswith("._flush_buffer")]
+        hs = [n.id for n in live(g) if n.kind == "handler" and "KeyError" in n["types"] and (own(n) or n.func.endswith("._flush_buffer"))]
         pops = [n.id for n in live(g) if n.kind == "cs_write" and n["name"] == "_buffered_collections" and n["op"].startswith("call:pop")]
         w = g.must_pass(g.entry, [g.exit], hs)
         if w is None and hs and pops:
